@@ -113,6 +113,15 @@ class UnitGen:
                         'substs': [[a, b] for (a, b, _) in f.substs],
                         'renames': f.renames,
                         'rules': scoped_rules(self.rules_text, f.path)}
+                if 'lifted' in f.opts:
+                    parent, cn = f.opts['lifted'].split()
+                    pf = [x for x in m.fns if x.name == parent]
+                    if not pf or int(cn) not in pf[0].lifts:
+                        raise S.SpecError('%s: lifted from %s closure %s, but the parent has no such lift' % (f.path, parent, cn))
+                    l = pf[0].lifts[int(cn)]
+                    opts['lifted_from'] = {'fn': parent, 'closure': int(cn), 'params': l['params'], 'ret': l['ret'] or ''}
+                    opts['sites'] = {str(k): v for k, v in list(pf[0].sites.items()) + list(f.sites.items())}
+                    opts['lifts'] = {str(k): v for k, v in list(pf[0].lifts.items()) + list(f.lifts.items())}
                 items.append({'kind': 'fn', 'name': f.name, 'opts': opts, '_mod': mp})
         return {'repo': self.repo, 'rules': scoped_rules(self.rules_text, ''), 'type_map': self.type_map, 'ghost_fields': ghost,
                 'templates': load_templates(),
@@ -155,6 +164,7 @@ class UnitGen:
         self.verified_fns = []
         self.verified_fns_with_body = []
         self.stub_fns = []
+        self.pending_impl = {}
         self.emit('#![allow(unused_imports, unused_variables, unused_mut, dead_code, unused_assignments, unreachable_code, non_snake_case, unused_parens, unused_braces)]')
         self.emit('#![feature(allocator_api)]')
         self.emit('use vstd::prelude::*;')
@@ -215,6 +225,10 @@ class UnitGen:
                     for g in it.ghost:
                         self.emit('    pub %s: %s,' % (g[0], g[1]), kind='item', src=src)
                     self.emit('}', kind='item', src=src)
+            elif it.kind == 'trait':
+                self._emit_trait(m, it, io, canary)
+            elif 'impl_key' in io:
+                self.pending_impl.setdefault(norm_ws(io['impl_key']), []).extend([(t, (io['_file'], l)) for (t, l) in io['lines']])
             elif 'assoc_of' in io:
                 self.emit('impl %s {' % io['assoc_of'])
                 for (t, l) in io['lines']:
@@ -225,9 +239,12 @@ class UnitGen:
                     self.emit(t, kind='item', src=(io['_file'], l))
         # fns grouped by impl header, preserving order
         groups = []
+        trait_names = set(it.name for it in m.items if it.kind == 'trait')
         for f in m.fns:
             if f.path not in self.fn_modes:
                 continue
+            if '::' in f.name and f.name.split('::')[0] in trait_names:
+                continue   # emitted inside the trait declaration
             if f.opts.get('synthetic') is not None:
                 hdr = None
                 io = None
@@ -241,15 +258,36 @@ class UnitGen:
         for hdr, fl in groups:
             if hdr:
                 self.emit(hdr + ' {')
+                for (t, src) in self.pending_impl.pop(norm_ws(hdr), []):
+                    self.emit('    ' + t, kind='item', src=src)
+                for f, io in fl:
+                    for rl in f.implraw:
+                        self.emit('    ' + rl, kind='raw', src=f.src)
             for f, io in fl:
                 self._emit_fn(f, io, canary)
             if hdr:
                 self.emit('}')
 
+    def _emit_trait(self, m, it, io, canary):
+        src = (io['_file'], io['src_line'])
+        sup = (': ' + io['supertraits']) if io.get('supertraits') else ''
+        self.emit('pub trait %s%s%s {' % (it.name, io.get('generics', ''), sup), kind='item', src=src)
+        for c in io['consts']:
+            self.emit('    ' + c, kind='item', src=src)
+        for rl in it.rawlines:
+            self.emit('    ' + rl, kind='raw', src=it.src)
+        for fname in io['fns']:
+            fs = [f for f in m.fns if f.name == it.name + '::' + fname]
+            if not fs or fs[0].path not in self.fn_modes:
+                raise GenError('needs-contract: trait fn %s::%s has no fn block / is not selected' % (it.name, fname))
+            fio = self.weave_out[(m.path, 'fn', fs[0].name)]
+            self._emit_fn(fs[0], fio, canary, in_trait=True)
+        self.emit('}', kind='item', src=src)
+
     def _impl_header(self, f, io):
         im = io['impl']
         if im.get('trait_decl'):
-            raise GenError('trait declarations are emitted through raw text; %s' % f.path)
+            return None
         if im.get('self_ty') is None:
             return None
         gen = f.implgenerics if f.implgenerics is not None else (im.get('generics') or '')
@@ -265,7 +303,7 @@ class UnitGen:
         base = f.path
         return '%s#%s' % (base, c.label if c.label else '%s%d' % (c.kind[:3], idx))
 
-    def _emit_fn(self, f, io, canary):
+    def _emit_fn(self, f, io, canary, in_trait=False):
         mode = self.fn_modes[f.path]
         fnpath = f.path
         sig = io['sig']
@@ -293,12 +331,16 @@ class UnitGen:
         ret = f.rettype or sig['ret']
         for a in f.attrs:
             self.emit('    ' + a, kind='fnhead', fn=fnpath, src=src)
-        if mode == 'stub':
+        if in_trait and not io['has_body']:
+            pass
+        elif mode == 'stub':
             self.emit('    #[verifier::external_body]', kind='fnhead', fn=fnpath, src=src)
             self.stub_fns.append(fnpath)
         else:
             self.verified_fns.append(fnpath)
         vis = 'pub ' if not io['impl'].get('trait') or f.opts.get('inherent') is not None else ''
+        if in_trait:
+            vis = ''
         unsafe = ''  # unsafe fns are emitted as safe fns whose requires states the documented safety condition
         head = '    %s%sfn %s%s(%s)' % (vis, unsafe, name, gen, ', '.join(params))
         if ret is not None:
@@ -324,6 +366,9 @@ class UnitGen:
                 cid = self._clause_id(f, c, idx)
                 self._register_clause(cid, c, f)
                 self._emit_clause_text(c, cid, fnpath, '            ', ',')
+        if not io['has_body']:
+            self.emit('    ;', kind='fnhead', fn=fnpath, src=src)
+            return
         if mode == 'stub':
             self.emit('    { unimplemented!() }', kind='fnhead', fn=fnpath, src=src)
             return
@@ -444,6 +489,10 @@ class UnitGen:
 
     def text(self):
         return '\n'.join(l.text for l in self.lines) + '\n'
+
+
+def norm_ws(s):
+    return re.sub(r'\s+', '', s)
 
 
 def scoped_rules(text, fnpath):
